@@ -672,11 +672,46 @@ fn forms_c06<T: JoinKind>(ctx: &Ctx, name: &str, x: &[u32], b: &BitSet, bv: &[u3
             chk!(fails, name, "(s.drain(),&b).join", x, bv, got, want_val.clone());
             let left: Vec<u32> = st.mask().iter().collect();
             let want_left: Vec<u32> = x.iter().copied().filter(|i| !both.contains(i)).collect();
-            chk!(fails, name, "(s.drain(),&b).join leaves", x, bv, left, want_left);
+            chk!(fails, name, "(s.drain(),&b).join leaves", x, bv, left, want_left.clone());
             for idx in both {
                 st.insert(ctx.live[idx], T::make(val_of(*idx))).unwrap();
             }
             stats.joins += 1;
+            // the iterator's other consuming methods are repeated `next`: what they step over is
+            // visited (here: drained) as well
+            let restore = |st: &mut WriteStorage<T>| {
+                for idx in both {
+                    if !st.contains(ctx.live[idx]) {
+                        st.insert(ctx.live[idx], T::make(val_of(*idx))).unwrap();
+                    }
+                }
+            };
+            let n = (st.drain(), b).join().count();
+            let left: Vec<u32> = st.mask().iter().collect();
+            chk!(fails, name, "(s.drain(),&b).join().count()", x, bv, (n, left), (both.len(), want_left.clone()));
+            restore(&mut st);
+            let mut ks = vec![0usize, 1, both.len().saturating_sub(1), both.len()];
+            ks.sort();
+            ks.dedup();
+            for k in ks {
+                let got = (st.drain(), b).join().nth(k).map(|(c, i)| (i, c.returned()));
+                let want = both.get(k).map(|i| (*i, zv::<T>(*i)));
+                let left: Vec<u32> = st.mask().iter().collect();
+                let consumed: Vec<u32> = both.iter().copied().take(k + 1).collect();
+                let want_left: Vec<u32> = x.iter().copied().filter(|i| !consumed.contains(i)).collect();
+                chk!(fails, name, format!("(s.drain(),&b).join().nth({})", k), x, bv, (got, left), (want, want_left));
+                restore(&mut st);
+                stats.joins += 1;
+            }
+            let got: Vec<u32> = (st.drain(), b).join().skip(1).step_by(2).map(|(c, i)| {
+                c.returned();
+                i
+            }).collect();
+            let want: Vec<u32> = both.iter().copied().skip(1).step_by(2).collect();
+            let left: Vec<u32> = st.mask().iter().collect();
+            chk!(fails, name, "(s.drain(),&b).join().skip(1).step_by(2)", x, bv, (got, left), (want, want_left.clone()));
+            restore(&mut st);
+            stats.joins += 2;
         }
     }
 }
